@@ -201,7 +201,9 @@ def checkHashTypeEncoding (env : Env) (shf : Nat) : Option String :=
   if hasFlag env.flags fBip143 && shf &&& 0x40 == 0 then some "ErrInvalidSigHashType" else
   let t := if hasFlag env.flags fBip143 then t0 ^^^ 0x40 else t0
   if t &&& 0x40 != 0x40 then
-    (if t < 1 || t > 3 then some "ErrInvalidSigHashType" else none)
+    (if t < 1 || t > 3 then some "ErrInvalidSigHashType"
+     -- replay protection: with FORKID signatures enabled a hash type without the FORKID bit is refused
+     else if hasFlag env.flags fForkID && shf &&& 0x40 != 0x40 then some "ErrIllegalForkID" else none)
   else if t < 0x41 || t > 0x43 then some "ErrInvalidSigHashType"
   else if !hasFlag env.flags fForkID && shf &&& 0x40 == 0x40 then some "ErrIllegalForkID"
   else if hasFlag env.flags fForkID && shf &&& 0x40 != 0x40 then some "ErrIllegalForkID"
